@@ -25,6 +25,24 @@
 blockdir::Address ==> Address
 //@@ end
 
+impl UnixMode {
+    // the recorded mode bits (None: the entry carries no mode)
+    pub closed spec fn bits(&self) -> Option<u32> { self.0 }
+}
+
+//@@ type src/bandid.rs | struct BandId derive=Clone,Copy
+//@@ end
+
+// std::fs::Permissions on unix: `PermissionsExt::mode` returns the st_mode bits this value was built from.
+#[verifier::external_type_specification]
+#[verifier::external_body]
+pub struct ExPermissions(std::fs::Permissions);
+
+pub uninterp spec fn perm_mode(p: std::fs::Permissions) -> u32;
+
+pub assume_specification[ <std::fs::Permissions as std::os::unix::fs::PermissionsExt>::mode ](p: &std::fs::Permissions) -> (r: u32)
+    ensures r == perm_mode(*p);
+
 // the Kind a KindMeta stands for (doc comment of KindMeta: "Per-kind metadata")
 spec fn kind_of(m: KindMeta) -> Kind {
     match m {
@@ -68,3 +86,21 @@ impl Clone for Owner {
 // std: `impl<T: Clone> ToOwned for T { fn to_owned(&self) -> T { self.clone() } }`
 pub assume_specification<T: Clone>[ <T as std::borrow::ToOwned>::to_owned ](x: &T) -> (r: T)
     ensures call_ensures(T::clone, (x,), r);
+
+// R7 lifted one-liner (verbatim text of IndexEntry::size's argument).  std `Sum for u64` is a fold with `+`:
+// it panics on overflow when overflow checks are on (debug / test builds) and wraps otherwise, so "no overflow"
+// is its no-panic AND its correctness condition.
+#[verifier::external_body]
+fn lifted_sum_addr_lens(addrs: &Vec<Address>) -> (r: u64)
+    requires
+        total_len(addrs@) <= u64::MAX, //# C10.size_sum_no_overflow
+    ensures
+        r as int == total_len(addrs@),
+{ addrs.iter().map(|a| a.len).sum() }
+
+// R7 lifted one-liner for the saturating variant (not in the pinned tree; decides a fixed `size`).
+#[verifier::external_body]
+fn lifted_saturating_sum_addr_lens(addrs: &Vec<Address>) -> (r: u64)
+    ensures
+        r as int == (if total_len(addrs@) <= u64::MAX { total_len(addrs@) } else { u64::MAX as int }),
+{ addrs.iter().fold(0u64, |s, a| s.saturating_add(a.len)) }
